@@ -177,6 +177,9 @@ func main() {
 
 func obOK(ob *Obligation) bool {
 	if ob.Cover {
+		if ob.Info || (ob.CoverPre != nil && ob.CoverPre.Result != "sat") {
+			return true
+		}
 		return ob.Result == "sat" || ob.Result == "unknown" || ob.Result == "timeout"
 	}
 	return ob.Result == "unsat"
